@@ -356,6 +356,50 @@ func init() {
 					}
 					w.Each(len(items), func(i int) { w.Item(items[i].s, items[i].shape) })
 				}, Eval: evalC14Shape},
+			{Name: "long-word-keyword-tails", Space: "one plain word = filler^L + a keyword spelling, for every L in 1..120 and -34..+34 around every power of two 2^7..2^16 and around every new integer constant of the tree under test, 2 fillers x 8 keyword tails x {alone, + ' 1', after a word}: a word is one token however long it is, so no suffix of it may be read as a keyword", Share: 1,
+				Run: func(w *fw.W) {
+					seenL := map[int]bool{}
+					var lens []int
+					addL := func(k int) {
+						if k >= 1 && !seenL[k] {
+							seenL[k] = true
+							lens = append(lens, k)
+						}
+					}
+					for k := 1; k <= 120; k++ {
+						addL(k)
+					}
+					cs := []int{}
+					for e := 7; e <= 16; e++ {
+						cs = append(cs, 1<<uint(e))
+					}
+					for _, n := range alpha.NewInts() {
+						if n > 120 && n <= 1<<17 {
+							cs = append(cs, n)
+						}
+					}
+					for _, c := range cs {
+						for d := -34; d <= 34; d++ {
+							addL(c + d)
+						}
+					}
+					kws := []string{"having", "union", "select", "or", "limit", "sleep", "between", "into"}
+					w.Each(len(lens), func(i int) {
+						k := lens[i]
+						for _, fill := range []string{"a", "q_7"} {
+							body := strings.Repeat(fill, k/len(fill)+1)[:k]
+							if body[0] >= '0' && body[0] <= '9' {
+								body = "q" + body[1:]
+							}
+							for _, kw := range kws {
+								wd := body + kw
+								w.Item(wd, "long word ending in a keyword spelling")
+								w.Item(wd+" 1", "long word ending in a keyword spelling, then a number")
+								w.Item("memo "+wd+" 1 done", "long word ending in a keyword spelling, in a sentence")
+							}
+						}
+					})
+				}, Eval: evalC14Shape},
 			{Name: "near-keyword-words", Space: "for every non-fingerprint key of the current table: the key with 1..3 digits appended, with a letter appended / prepended, with '_' inserted at every position, doubled, each in lower case, kept only when it is an admissible plain word (identifier, not a key or key component); as a single token and in 6 word/number sentences", Share: 2,
 				Run: func(w *fw.W) {
 					words := c14NearKeywords()
